@@ -364,7 +364,10 @@ def jobs(tier):
             ("mwfn", "h_mwfn", dict(dtype=2, spin="restricted")), ("gamess", "h_gamess", dict(natom=2)),
             ("gaussianinput", "h_gaussian_input", dict(natom=2, nlink0=1, nroute=1, ntitle=1)),
             ("gaussianlog", "h_gaussian_log", dict(nbasis=6))):
-        out.append(job("C17", f"guaranteed[{fmt},{fn}]", M, "h_guaranteed", dict(module=C3, fn=fn, params=params, fmt=fmt), budget_s=300,
+        name = f"guaranteed[{fmt},{fn}]"
+        if any(j["name"] == name for j in out):
+            name = f"guaranteed[{fmt},{fn},{','.join(f'{k}={v}' for k, v in sorted(params.items()))}]"
+        out.append(job("C17", name, M, "h_guaranteed", dict(module=C3, fn=fn, params=params, fmt=fmt), budget_s=300,
                        max_validate=2, max_paths=300))
     out.append(job("C17", "input-select", M, "h_input_select", {}))
     out.append(job("C17", "glob-translation", M, "h_glob_translation", {}, validate=False))
